@@ -1074,7 +1074,8 @@ class Discharger:
                     extra4 = _range_evidence(conds, base, ln, [lo, hi])
                     extra = [x[:3] for x in extra4]
                     F = arith.build(list(conds) + extra, [ln, lo, hi], ex, unsigned=[lo, hi], stable=stable)
-                    if F.proves_ge(ln, arith.untry(hi)) and F.proves_ge(arith.untry(hi), arith.untry(lo)):
+                    lnu = arith.untry(ln)      # (the slice expression itself may hold values obtained through `?`)
+                    if F.proves_ge(lnu, arith.untry(hi)) and F.proves_ge(arith.untry(hi), arith.untry(lo)):
                         return "A: range bounds lo <= hi <= len(slice) follow from the dominating conditions and slice axioms" + (" [with: %s]" % "; ".join(sorted({x[3] for x in extra4})) if extra4 else "")
                     # a bound kept in a variable assigned at several places (a running count): each assigned value is within
                     # the slice on its own
@@ -1086,7 +1087,7 @@ class Discharger:
                             return False
                         for d in ds:
                             Fd = arith.build(list(conds) + extra, [ln, d], ex, unsigned=[d], stable=stable)
-                            if not Fd.proves_ge(ln, arith.untry(d)):
+                            if not Fd.proves_ge(arith.untry(ln), arith.untry(d)):
                                 return False
                         return True
                     pic = self.per_item_counters(s.body)
